@@ -225,11 +225,18 @@ def warpRemoteTransfer (cfg : Cfg) (c : Ctx) (token : Bytes) (domain : Nat) (amo
   match hook with
   | .noop => pure c
   | .igp idenom idomain rate price overhead =>
+    -- `PayForGas`: the maximum fee must name something (`sdk.NewCoins` has dropped a zero coin) …
+    if feeAmt == 0 then .err "igp:max-fee-required" else
     if idomain != domain then .err "igp:domain" else
     let g : Int := if gas == 0 then rgas else gas
+    -- `QuoteGasPayment`: `math.Int` arithmetic, which panics when a result leaves 256 bits
+    if overflows256 (g + overhead) || overflows256 ((g + overhead) * price) || overflows256 ((g + overhead) * price * rate) then
+      .panic "igp:integer-overflow" else
     let charge : Int := ((g + overhead) * price * rate) / 10000000000
     if charge < 0 then .err "igp:coin" else
-    if !(feeDenom == idenom && feeAmt ≥ charge) && charge > 0 then .err "igp:max-fee"
+    -- … and bounds the payment only when it is in the paymaster's own denomination (`requiredPayment.IsAllGT(maxFee)`, then
+    -- `chargedCoins.IsAnyGT(maxFee)`: coins of another denomination are never "greater")
+    if feeDenom == idenom && charge > feeAmt then .err "igp:max-fee"
     else if charge == 0 then .err "igp:zero"
     else c.send cfg.orbAddr cfg.hypModule idenom charge.toNat "igp:payment"
 
